@@ -143,4 +143,12 @@ example : drawsSubProof 2 1 = [2432, 2128, 456, 3060, 592, 592, 2128, 2128, 2128
     592, 592, 592, 592, 672, 672, 672, 672, 672, 2787] := by decide
 example : drawsBlind 1 0 = [2128, 673, 593] := by decide
 
+/-- **the pairing-side randomisers are each a fresh draw**: in `_gen_c_list_params` the seven blinders
+and in `_gen_tau_list_params` the thirteen masks are each assigned their own `GroupOrderElement::new()`
+(regenerated from `prover.rs`; a variable copied from another one drops out of the list) -/
+theorem nr_randomisers_fresh :
+    Gen.nrCListFresh = ["rho", "r", "r_prime", "r_prime_prime", "r_prime_prime_prime", "o", "o_prime"] ∧
+    Gen.nrTauFresh = ["rho", "r", "r_prime", "r_prime_prime", "r_prime_prime_prime", "o", "o_prime",
+      "m", "m_prime", "t", "t_prime", "s", "c"] := ⟨rfl, rfl⟩
+
 end CL.C12
